@@ -242,9 +242,14 @@ class AbstractHasAxes(AbstractHasMetadata):
         if not isinstance(newdims, dict):
             if len(newdims) != len(self.dims):
                 raise ValueError("dimensions number mismatch")
-            newdims = dict(zip(self.dims, newdims))
-        for old in newdims.keys():
-            self.axes[old].name = newdims[old]
+            newdims = list(newdims)
+        else:
+            newdims = [newdims.get(old, old) for old in self.dims]
+        if len(set(newdims)) != len(newdims):
+            raise ValueError("dimension names must be distinct, got: {}".format(newdims))
+        # rename by position: a new name may be the current name of another axis
+        for i, newname in enumerate(newdims):
+            self.axes[i].name = newname
 
     @property
     def axes(self):
